@@ -274,7 +274,7 @@ def run(ctx):
     rng = ctx.rng
     kinds = pkts.SIGNER_KINDS
     lens = pkts.payload_lengths()
-    n = ctx.n(1500, 160000)
+    n = ctx.n(1500, 600000)
     no_digest_types = [t for t in gen.COMP_TYPES if t != 2]
 
     # ---- boundary sweep: total packet length landing on each transition, per signer
